@@ -7,7 +7,7 @@ from . import common
 from .common import Ctx
 
 FILES = ["src/eolib/packet/packet_sequencer.py", "src/eolib/packet/sequence_start.py"]
-RULE = ("every history of length <= 7 (thorough: <= 9) over {next, set(0), set(5), set(1756)} from three initial starts, "
+RULE = ("every history of length <= 7 (thorough: <= 9) over {next, set(0), set(5), set(1756), set(-4)} from four initial starts (one negative), "
         "plus histories of 300 to 66,000 requests (no / sparse / frequent updates) and seeded random histories up to 200 operations with arbitrary start values and every SequenceStart subclass; "
         "each next_sequence() result is compared with the model and with the specification start_in_force + n mod 10. "
         "distinct = (length, number of updates, number of wrap-arounds)")
@@ -62,8 +62,10 @@ def lines_for(start, ops):
 
 def histories(ctx: Ctx):
     depth = 9 if ctx.tier == "thorough" else 7
-    menu = [None, 0, 5, 1756]
-    for start in (0, 3, 1756):
+    # start values are arbitrary integers: the from-values constructors give negative ones for small components
+    # (from_init_values(1, 2) = -4, from_ping_values(3, 9) = -6), and start + counter may cross zero in mid-cycle
+    menu = [None, 0, 5, 1756, -4]
+    for start in (0, 3, 1756, -13):
         for L in range(0, depth + 1):
             for ops in itertools.product(menu, repeat=L):
                 yield start, list(ops), True
@@ -83,9 +85,9 @@ def histories(ctx: Ctx):
     for _ in range(20_000 if ctx.thorough else 3_000):
         L = rng.randrange(1, 201)
         p = rng.choice([0.0, 0.05, 0.2, 0.5])
-        ops = [rng.choice([0, 1, 252, 1756, rng.randrange(0, 2000), rng.randrange(-5, 10 ** 6)]) if rng.random() < p else None
-               for _ in range(L)]
-        yield rng.choice([0, 1, 9, 10, 1756, rng.randrange(0, 10 ** 6)]), ops, False
+        ops = [rng.choice([0, 1, 252, 1756, rng.randrange(0, 2000), rng.randrange(-5, 10 ** 6), -1, -4, -9, -13, -rng.randrange(1, 2000)])
+               if rng.random() < p else None for _ in range(L)]
+        yield rng.choice([0, 1, 9, 10, 1756, rng.randrange(0, 10 ** 6), -1, -6, -13, -rng.randrange(1, 2000)]), ops, False
 
 
 def run(ctx: Ctx):
